@@ -585,6 +585,22 @@ func c13Extra() *core.Space {
 		return ""
 	}
 	cases := []tcase{
+		{"nil pointer to a struct as target (Unpack(&p)): stays nil when Unpack fails, is allocated when it succeeds", func() string {
+			var p *c13Inner
+			if err := mustCfg(M{"x": "not-a-number"}).Unpack(&p); err == nil {
+				return "expected failure"
+			}
+			if p != nil {
+				return fmt.Sprintf("the nil pointer was replaced on failure: %+v", *p)
+			}
+			if err := mustCfg(M{"x": 4}).Unpack(&p); err != nil {
+				return err.Error()
+			}
+			if p == nil || p.X != 4 {
+				return fmt.Sprintf("%v", p)
+			}
+			return ""
+		}},
 		{"top-level target whose own Unpack fails after writing fields: unchanged", func() string {
 			t := &c13SelfU{Min: 5, Max: 10}
 			if err := mustCfg(M{"min": 50}).Unpack(t); err == nil {
